@@ -43,6 +43,8 @@ structure Offering where
   available : Bool
   resID : String
   resN : Nat
+  /-- cpu `CapacityOverride` of this offering (milli-cores) -/
+  cpuOverride : Option Int := none
 deriving Repr
 
 structure IT where
@@ -174,6 +176,8 @@ def Scenario.pod? (s : Scenario) (n : String) : Option Pod :=
   (s.pods ++ s.nodes.flatMap (·.pods)).find? (·.name == n)
 
 def IT.allocCPU (it : IT) : Int := it.cpu - it.overhead
+/-- allocatable cpu of a launch through offering `o` (`computeAllocatable` with the offering's capacity override) -/
+def IT.allocCPUFor (it : IT) (o : Offering) : Int := o.cpuOverride.getD it.cpu - it.overhead
 
 def Node.managed (n : Node) : Bool := n.pool != ""
 def Node.initialized (n : Node) : Bool := !n.managed || n.stage == "initialized"
